@@ -1,7 +1,6 @@
 //! Shared helpers for the scylla-cql level checks (bins under src/bin).
-pub mod c01dyn; // C01 leg dyn: (type, value) x CqlValue vs cqlref::value
 pub mod c16_drive; // C16: drivers for the derived impls, attribute text -> model
 pub mod c16_family; // C16: the fixed struct family
-pub mod dynconv; // C01/C17: reference <-> ColumnType/CqlValue conversions, serialize/deserialize drivers
-pub mod types; // C01/C17: enumerated column-type space
-pub mod values; // C01/C17: value alphabets, JSON forms
+pub mod decode; // C08: counting allocator + the driver's decode pipeline and canonical dump (child side)
+pub mod frames; // C08: response corpus from cqlref::proto::resp, expected dumps, deviations
+pub mod typed; // C08: typed row targets
